@@ -109,6 +109,20 @@ def run_pack(case):
     s = bs.ConstBitStream(bytes=ref)
     got = attempt(s.readlist, fmt)
     require(not is_raised(got) and s.pos == 8 * len(ref), 'readlist(struct format) did not consume exactly the struct size', pos=s.pos, fmt=fmt)
+    # whatever the bit numbering mode, unpack / readlist invert pack for the same format
+    if vals and not any(isinstance(v, float) and math.isnan(v) for v in vals):
+        bs.options.lsb0 = True
+        try:
+            pl = attempt(bs.pack, fmt, *vals)
+            require(not is_raised(pl) and len(pl) == 8 * len(ref), 'pack with a struct-style format raised or has the wrong size under lsb0', got=pl, fmt=fmt)
+            back = attempt(pl.unpack, fmt)
+            exp = list(struct.unpack(sfmt, ref))
+            require(not is_raised(back) and len(back) == len(exp) and all(same_value(g, e) for g, e in zip(back, exp)), 'under lsb0 unpack(code) does not invert pack(code, *values)',
+                    got=back if is_raised(back) else back[:8], expected=exp[:8], fmt=fmt)
+            back2 = attempt(bs.ConstBitStream(pl).readlist, fmt)
+            require(not is_raised(back2) and all(same_value(g, e) for g, e in zip(back2, exp)), 'under lsb0 readlist(code) does not invert pack(code, *values)', got=back2 if is_raised(back2) else back2[:8], fmt=fmt)
+        finally:
+            bs.options.lsb0 = False
     return {'nt': nonpal(case), 'labels': [case['endian']] + [c for _, c, _ in case['items']]}
 
 
@@ -184,6 +198,21 @@ def run_array(case):
         if arr is not None and arr.itemsize * 8 == nb and not any(isinstance(v, float) and math.isnan(v) for v in vals):
             require(a.tobytes() == arr.tobytes(), "Array('=X').tobytes() differs from array.array('X').tobytes()", code=code)
             require(a.equals(arr) is True, 'Array.equals(array.array) with matching kind, width and values must be True', code=code)
+            # the same bytes seen through another typecode of the same item size: equal only if the items are
+            for tc2 in 'bBhHiIlLqQfd':
+                try:
+                    other_arr = array.array(tc2)
+                except ValueError:
+                    continue
+                if other_arr.itemsize * 8 != nb or tc2 == code or not vals:
+                    continue
+                other_arr.frombytes(arr.tobytes())
+                lst = other_arr.tolist()
+                if any(isinstance(v, float) and math.isnan(v) for v in lst):
+                    continue
+                want_eq = a.tolist() == lst
+                require(a.equals(other_arr) is want_eq, 'Array.equals(array.array of another typecode with the same bytes) must compare the items, not the bytes', code=code, other=tc2,
+                        got=a.equals(other_arr), expected=want_eq, items=a.tolist()[:4], other_items=lst[:4])
     pal = all(struct.pack('>' + code, v) == struct.pack('<' + code, v) for v in vals)
     return {'nt': nb > 8 and not pal, 'labels': [e, code]}
 
@@ -292,11 +321,15 @@ def run_endian(case):
 def record_swap_case(draw, tier):
     """records laid out with struct in one byte order, behind an optional header; byteswap with the record's format converts them to the other order"""
     codes = draw(st.lists(st.sampled_from(sorted(CODES)), min_size=1, max_size=4))
+    if draw(st.integers(0, 5)) == 0:
+        # ten or more of the same code in a row: written with a two-digit count in the 'counted' spelling
+        run = [draw(st.sampled_from(['h', 'H', 'b', 'i', 'e']))] * draw(st.sampled_from([10, 11, 12, 20]))
+        codes = (codes[:1] if draw(st.booleans()) else []) + run + (codes[1:2] if draw(st.booleans()) else [])
     nrec = draw(st.integers(1, 3))
     vals = [[draw(values_for(c, 1, allow_nan=False))[0] for c in codes] for _ in range(nrec)]
     return {'codes': codes, 'vals': vals, 'header': draw(st.integers(0, 3)), 'tail': draw(st.integers(0, 2)), 'order': draw(st.sampled_from('<>')),
             'fmt_kind': draw(st.sampled_from(['str_plain', 'str_at', 'str_eq', 'str_lt', 'str_gt', 'int_list', 'int_tuple', 'counted'])), 'repeat': draw(st.booleans()),
-            'explicit_end': draw(st.booleans()), 'cls': draw(mcls_st)}
+            'explicit_end': draw(st.booleans()), 'cls': draw(mcls_st), 'partial': draw(st.integers(0, 3))}
 
 
 def run_record_swap(case):
@@ -323,14 +356,22 @@ def run_record_swap(case):
     else:
         sizes = [CODES[c][1] // 8 for c in codes]
         fmt = sizes if kind == 'int_list' else tuple(sizes)
-    x = cls_of(case['cls'])(bytes=header + body + tail)
+    # an incomplete further record inside the range (its first items only): the pattern does not fit there, so it is left alone
+    partial = b''
+    if case.get('partial') and len(codes) >= 2:
+        k = 1 + case['partial'] % (len(codes) - 1)
+        partial = struct.pack(order + ''.join(codes[:k]), *recs[0][:k])
+        if len(partial) >= one:
+            partial = b''
+    x = cls_of(case['cls'])(bytes=header + body + partial + tail)
     start = 8 * len(header)
     repeat = case['repeat']
-    end = 8 * (len(header) + len(body)) if (case['explicit_end'] or tail) else None
+    end = 8 * (len(header) + len(body) + len(partial)) if (case['explicit_end'] or tail) else None
     r = attempt(x.byteswap, fmt, start, end, repeat)
     require(not is_raised(r), 'byteswap with the format of the records raised', got=r, fmt=fmt, start=start, end=end, repeat=repeat)
     nswapped = len(recs) if repeat else 1
-    want = header + body_other[:one * nswapped] + body[one * nswapped:] + tail
+    want = header + body_other[:one * nswapped] + body[one * nswapped:] + partial + tail
+    body = body + partial           # for the identity check below
     require(x.bytes == want, 'byteswap(record format) does not convert the records to the other byte order', fmt=fmt, start=start, end=end, repeat=repeat,
             got=x.bytes.hex()[:80], expected=want.hex()[:80])
     require(r == nswapped, 'byteswap does not return the number of repeats it performed', got=r, expected=nswapped)
